@@ -1,5 +1,5 @@
 """C03 The corrected design vector is a canonical fixed point describing the instance - structural clauses."""
-from ..rules import vectors
+from ..rules import vectors, decode, persist
 from ..rules.common import *
 
 EXPLANATION = (
@@ -9,13 +9,21 @@ EXPLANATION = (
     '(decided for create=True and create=False separately); the eager connection encoder returns the stored '
     'vector of the selected matrix, the imputer result or the all-inactive vector (the direct-hit path does '
     'not: known finding F7); (A5) unused entries are replaced by the canonical inactive value after activeness '
-    'has been derived.  Not decided: idempotence and injectivity (value-level).')
+    'has been derived; (A5d) the closest-combination distance of the complete encoder ignores inactive and forced '
+    'choices; (A21) choice-space and design-vector-space arrays are indexed with the matching index; (A1/A2) the '
+    'instance caches on the decode path are canonical memos with complete keys.  Not decided: idempotence and '
+    'injectivity as such (value-level).')
 
 
 def check(ctx):
     vectors.decode_no_raw_echo(ctx)
     vectors.inactive_value_contract(ctx)
     vectors.eager_returns_stored_vector(ctx)
+    decode.closest_combination_distance(ctx)
+    # two different vectors never denote one architecture: the instance caches are keyed completely
+    fns, _ = decode.decode_slice(ctx)
+    ps = persist.Persist(ctx, [ctx.fn(f'{GP}.get_graph')], fns)
+    ps.check_writes()
     ctx.floor('A6', 5, 'reported-vector sinks')
 
 
